@@ -5,6 +5,7 @@
      Prepare      Credential.NonrevPrepareCache: build a committed proof builder for the cache, or refresh the cached one
      RevokeOther  the issuer revokes somebody else (accumulator index + 1)
      RevokeSelf   the issuer revokes this credential's witness value
+     Resign       the issuer signs the current accumulator again at a later time (no revocation happened)
      Update       Witness.Update with the issuer's update covering everything the witness misses
      Prove        CreateDisclosureProof(nonrev): consume the cached builder (refreshing its commitment to the
                   witness' accumulator if that moved on: NonRevocationProofBuilder.UpdateCommit) or build a fresh one
@@ -17,34 +18,36 @@ Attacks == {"Cr", "Cu", "beta", "delta", "epsilon", "zeta", "alpha-response", "s
             "sacc-garbled", "transplant", "strip", "witness-attr-disclosed"}
 
 VARIABLES acc,      \* index of the issuer's current accumulator
-          wit,      \* [idx, revAt]: index the witness is at; index of the accumulator that removed it (0 = not revoked)
+          accT,     \* time at which the issuer's current signed accumulator was signed (a counter)
+          wit,      \* [idx, t, revAt]: index and signing time of the accumulator the witness holds; index of the accumulator that removed it (0 = not revoked)
           cache,    \* [has, idx]: the credential's cached proof builder and the index it is committed to
           hist
-vars == <<acc, wit, cache, hist>>
+vars == <<acc, accT, wit, cache, hist>>
 
-Init == acc = 0 /\ wit = [idx |-> 0, revAt |-> 0] /\ cache = [has |-> FALSE, idx |-> 0] /\ hist = <<>>
+Init == acc = 0 /\ accT = 0 /\ wit = [idx |-> 0, t |-> 0, revAt |-> 0] /\ cache = [has |-> FALSE, idx |-> 0] /\ hist = <<>>
 Log(r) == hist' = Append(hist, r)
 Room == Len(hist) < MaxOps
 
 Prepare == /\ Room
            /\ cache' = [has |-> TRUE, idx |-> wit.idx]        \* new builder at wit.idx, or cached one refreshed up to wit.idx
-           /\ Log([op |-> "prepare", ok |-> TRUE, idx |-> wit.idx]) /\ UNCHANGED <<acc, wit>>
-RevokeOther == Room /\ acc' = acc + 1 /\ Log([op |-> "revokeother", ok |-> TRUE, idx |-> acc + 1]) /\ UNCHANGED <<wit, cache>>
-RevokeSelf == /\ Room /\ wit.revAt = 0 /\ acc' = acc + 1 /\ wit' = [wit EXCEPT !.revAt = acc + 1]
+           /\ Log([op |-> "prepare", ok |-> TRUE, idx |-> wit.idx]) /\ UNCHANGED <<acc, accT, wit>>
+RevokeOther == Room /\ acc' = acc + 1 /\ accT' = accT + 1 /\ Log([op |-> "revokeother", ok |-> TRUE, idx |-> acc + 1]) /\ UNCHANGED <<wit, cache>>
+Resign == Room /\ accT' = accT + 1 /\ Log([op |-> "resign", ok |-> TRUE, idx |-> acc]) /\ UNCHANGED <<acc, wit, cache>>
+RevokeSelf == /\ Room /\ wit.revAt = 0 /\ acc' = acc + 1 /\ accT' = accT + 1 /\ wit' = [wit EXCEPT !.revAt = acc + 1]
               /\ Log([op |-> "revokeself", ok |-> TRUE, idx |-> acc + 1]) /\ UNCHANGED cache
 Update == /\ Room
           /\ IF wit.revAt # 0 /\ wit.revAt > wit.idx /\ wit.revAt <= acc
                THEN Log([op |-> "update", ok |-> FALSE, idx |-> wit.idx]) /\ UNCHANGED wit       \* ErrorRevoked, witness unchanged
-               ELSE wit' = [wit EXCEPT !.idx = acc] /\ Log([op |-> "update", ok |-> TRUE, idx |-> acc])
-          /\ UNCHANGED <<acc, cache>>
+               ELSE wit' = [wit EXCEPT !.idx = acc, !.t = accT] /\ Log([op |-> "update", ok |-> TRUE, idx |-> acc])   \* also a time-only update
+          /\ UNCHANGED <<acc, accT, cache>>
 \* the proof embeds the signed accumulator of the index the witness is at; the cache is consumed
 Prove == /\ Room /\ cache' = [has |-> FALSE, idx |-> 0]
-         /\ Log([op |-> "prove", ok |-> TRUE, idx |-> wit.idx, fromcache |-> cache.has, refreshed |-> (cache.has /\ cache.idx < wit.idx)])
-         /\ UNCHANGED <<acc, wit>>
+         /\ Log([op |-> "prove", ok |-> TRUE, idx |-> wit.idx, t |-> wit.t, fromcache |-> cache.has, refreshed |-> (cache.has /\ cache.idx < wit.idx)])
+         /\ UNCHANGED <<acc, accT, wit>>
 Attack == /\ Room /\ Len(hist) > 0 /\ hist[Len(hist)].op = "prove"
           /\ \E k \in Attacks : Log([op |-> "attack", ok |-> FALSE, idx |-> hist[Len(hist)].idx, kind |-> k])
-          /\ UNCHANGED <<acc, wit, cache>>
-Next == Prepare \/ RevokeOther \/ RevokeSelf \/ Update \/ Prove \/ Attack
+          /\ UNCHANGED <<acc, accT, wit, cache>>
+Next == Prepare \/ RevokeOther \/ Resign \/ RevokeSelf \/ Update \/ Prove \/ Attack
 Spec == Init /\ [][Next]_vars
 
 \* C11, model side
